@@ -15,6 +15,9 @@ const pid = "C07"
 type Case struct {
 	Boxes []string `json:"boxes"`
 	Ops   []hx.Op  `json:"ops"`
+	// NearWrap first advances the file store's process-wide 4-digit id counter to just below
+	// 9999, so that the ids issued during the case straddle its wrap to 0000.
+	NearWrap bool `json:"near_wrap,omitempty"`
 }
 
 var kinds = []string{"add", "add", "add", "add", "get", "get", "list", "seen", "remove", "remove", "purge", "visit"}
@@ -41,6 +44,23 @@ func run(c Case) *hx.Outcome {
 	defer os.RemoveAll(dir)
 	mem := &hx.Sys{Name: "mem", Store: hx.NewMem(extension.NewHost(), 0, 0), Model: hx.NewModel(0, 0), Boxes: c.Boxes}
 	file := &hx.Sys{Name: "file", Store: hx.NewFile(extension.NewHost(), dir, 0), Model: hx.NewModel(0, 0), Boxes: c.Boxes}
+	if c.NearWrap {
+		o.Class("ids straddle the wrap of the file store's id counter")
+		for n := 0; n < 10050; n++ {
+			id, err := file.Store.AddMessage(hx.NewDelivery("wrapfill", nil, nil, hx.BaseTime, "f", []byte("x")))
+			if err != nil {
+				o.Failf(pid+":harness", "wrap fill: %v", err)
+				return o
+			}
+			if n%50 == 49 {
+				_ = file.Store.PurgeMessages("wrapfill")
+			}
+			if len(id) > 4 && id[len(id)-4:] >= "9994" {
+				break
+			}
+		}
+		_ = file.Store.PurgeMessages("wrapfill")
+	}
 	diverged := false
 	for i, op := range c.Ops {
 		a := mem.Apply(pid, op, o)
@@ -66,13 +86,30 @@ func run(c Case) *hx.Outcome {
 	return o
 }
 
-func TestProp(t *testing.T)    { prop.Check(t) }
-func TestRegress(t *testing.T) { prop.Regress(t) }
+// propWrap is the same machine with the file store's id counter first advanced to just below
+// its wrap (about 10 s per case, hence few cases).
+var propWrap = hx.Prop[Case]{
+	ID: pid, Name: "wrap",
+	Rule: "the same histories, but first the file store's process-wide 4-digit id counter is advanced to just below 9999 by throw-away " +
+		"deliveries, so that the ids issued during the case straddle its wrap to 0000 (ids of one second are then not ascending); same " +
+		"oracle; non-trivial as above",
+	Quick: 1, Thorough: 3,
+	Gen: func(t *rapid.T) Case {
+		return Case{Boxes: hx.BoxesGen(2, 3).Draw(t, "boxes"), Ops: rapid.SliceOfN(hx.OpGen(kinds), 25, 60).Draw(t, "ops"), NearWrap: true}
+	},
+	Run: run,
+}
+
+func TestProp(t *testing.T) {
+	t.Run("hist", prop.Check)
+	t.Run("wrap", propWrap.Check)
+}
+func TestRegress(t *testing.T) { prop.Regress(t); propWrap.Regress(t) }
 func TestReplay(t *testing.T) {
 	if *hx.ReplayPath == "" {
 		t.Skip("no -replay")
 	}
-	if !prop.Replay(t, *hx.ReplayPath) {
+	if !prop.Replay(t, *hx.ReplayPath) && !propWrap.Replay(t, *hx.ReplayPath) {
 		t.Fatalf("no prop matches %s", *hx.ReplayPath)
 	}
 }
